@@ -247,6 +247,12 @@ func Judge(e *rt.Entry, sc *prog.Scenario, x *rt.Exec) []Viol {
 	if x.Escaped != nil {
 		j.add(uniq("C04"), "a panic propagated to the caller of the directive: %v", x.Escaped)
 	}
+	if sc.EmitGoexit {
+		// the loop goroutine was killed by the state emitter: what the directive
+		// returns and which functions ran is not specified; termination and leaks
+		// are judged by the runner
+		return j.viols
+	}
 	// ---- C03: bounded concurrency -------------------------------------------
 	if lim := limitOf(effConc(p, sc)); int(x.HWM.Load()) > lim {
 		j.add(uniq("C03"), "%d user functions were executing at once; the limit is %d (Concurrency(%d))", x.HWM.Load(), lim, sc.Conc)
